@@ -14,7 +14,7 @@ from . import arrays, sym
 from .arrays import ShapeError
 from .loader import AnalysisError, FunctionInfo, Module, Project
 from .sym import Expr
-from .values import (PSet, is_bucket_family, bucket_root, bucket_handle, bucket_family_like, Opt, Alt, Arr, Bag, Blocks, Concat, DiagMat, DictV, FuncV, ModV, NoneV, ObjV, Sc, Seq, Space, StrV,
+from .values import (CondSeq, PSet, is_bucket_family, bucket_root, bucket_handle, bucket_family_like, Opt, Alt, Arr, Bag, Blocks, Concat, DiagMat, DictV, FuncV, ModV, NoneV, ObjV, Sc, Seq, Space, StrV,
                      Unknown, Val, fix, fresh, generic_elem, rng, rows, shape_of, subspace)
 
 
@@ -67,6 +67,25 @@ class Frame:
         self.loop_stack: List[dict] = []
         self.parent_env = parent_env
         self.path_base = 0
+
+
+def _iter_rest(itv):
+    src, k = itv.attrs["src"], itv.attrs["pos"]
+    itv.attrs["pos"] = None  # exhausted by this loop
+    if k == 0:
+        return src
+    if k is None:
+        return Seq([], "list")
+    if isinstance(src, Seq):
+        return Seq(src.items[k:], src.kind)
+    return arrays.index(src, [("slice", sym.Num(k), None, None)])
+
+
+def _unbox_str(v):
+    """an element of a list of rendered labels is the label itself"""
+    if isinstance(v, Sc) and v.e is not None and v.e[0] == "opq" and v.e[1] == "strfmt":
+        return StrV("<formatted>", arg=v.e[2][0])
+    return v
 
 
 def _own_walk(node):
@@ -928,7 +947,7 @@ class Interp:
             rest = a.axes[1:]
             if rest:
                 return sp, iv, lambda: Arr(rest, a.elem, "nd")
-            return sp, iv, lambda: Sc(a.elem)
+            return sp, iv, lambda: _unbox_str(Sc(a.elem))
         if isinstance(it, Bag):
             iv = fresh("b")
             return rng(it.size if it.size is not None else sym.Opq("len", ())), iv, lambda: Sc(it.elem)
@@ -968,6 +987,42 @@ class Interp:
 
     def exec_for(self, st: ast.For, env: dict) -> Optional[dict]:
         it = self.eval(st.iter, env)
+        if isinstance(it, CondSeq) and not st.orelse:
+            # every item in turn, its body under the condition that the item is in the list at all
+            cache = self.__dict__.setdefault("_condfor", {})
+            for k, (item, cond) in enumerate(zip(it.items, it.conds)):
+                if cond == sym.TRUE:
+                    self.assign(st.target, item, env, st)
+                    r = self.exec_block(st.body, env)
+                    if r is None:
+                        return None
+                    continue
+                key = (id(st), k)
+                if key not in cache:
+                    tst = ast.Name(id=f"$cond{k}", ctx=ast.Load())
+                    asg = ast.Assign(targets=[st.target], value=ast.Name(id=f"$item{k}", ctx=ast.Load()))
+                    node = ast.If(test=tst, body=[asg] + list(st.body), orelse=[])
+                    for x_ in (tst, asg, node):
+                        ast.copy_location(x_, st)
+                    ast.fix_missing_locations(node)
+                    cache[key] = node
+                env[f"$cond{k}"] = Sc(cond)
+                env[f"$item{k}"] = item
+                if any(isinstance(x_, (ast.Break, ast.Continue)) for b_ in st.body for x_ in ast.walk(b_)):
+                    self.lose("break/continue in a loop over a conditionally filled list", st)
+                r = self.exec_if(cache[key], env)
+                env.pop(f"$cond{k}", None)
+                env.pop(f"$item{k}", None)
+                if r is None:
+                    return None
+                if r is not env:
+                    snap = dict(r)
+                    env.clear()
+                    env.update(snap)
+            return env
+        if isinstance(it, ObjV) and it.tag == "iter":
+            # the rest of an iterator over an array: rows consumed so far are skipped
+            it = _iter_rest(it)
         sp, iv, elem = self.iteration(it, st.iter)
         if sp is None:
             # concrete unrolling
@@ -1231,6 +1286,9 @@ class Interp:
             return bucket_family_like(item.attrs["base"], item.attrs.get("order"))
         if isinstance(item, Sc):
             return Arr([(sp, iv)], item.e, "list")
+        if isinstance(item, StrV) and item.s in ("<formatted>", "<f-string>") and getattr(item, "arg", None) is not None:
+            # a list of labels rendered from numbers (`["{}".format(i) for i in range(n)]`): position k holds str(arg(k))
+            return Arr([(sp, iv)], sym.Opq("strfmt", (item.arg,), None), "list")
         if isinstance(item, Arr):
             return Arr([(sp, iv)] + list(item.axes), item.elem, "list")
         a = arrays.to_arr(item)
@@ -1340,6 +1398,11 @@ class Interp:
     def unpack(self, v: Val, n: int, node) -> List[Val]:
         if isinstance(v, Seq) and len(v.items) == n:
             return list(v.items)
+        if isinstance(v, ObjV) and v.tag == "zip" and v.attrs["items"] and all(
+                isinstance(x, Seq) and len(x.items) >= n for x in v.attrs["items"]) \
+                and min(len(x.items) for x in v.attrs["items"]) == n:
+            # a, b, ... = zip(s1, s2, ...) of concrete sequences: the k-th name gets the tuple of the k-th entries
+            return [Seq([x.items[k] for x in v.attrs["items"]], "tuple") for k in range(n)]
         if isinstance(v, Alt):
             parts = [self.unpack(x, n, node) for x in v.vals]
             return [Alt([p[k] for p in parts]) for k in range(n)]
@@ -1416,9 +1479,17 @@ class Interp:
             return
         # D[a + k, b + k] = vals[k] (two index arrays walking a diagonal together): a diagonal block
         if len(idx) == 2 and all(it[0] == "fancy" for it in idx) and isinstance(base, (Arr, Blocks)) \
-                and (isinstance(base, Blocks) or (base.ndim == 2 and all(sp.concrete is None for sp, _ in base.axes))):
+                and (isinstance(base, Blocks) or (base.ndim == 2 and (all(sp.concrete is None for sp, _ in base.axes) or
+                                                                      not sym.free_ivars(base.elem)))):
             b = self._paired_diag_store(base, idx, v, st)
             if b is not None:
+                s0 = b.stores[0] if len(b.stores) == 1 else None
+                if name and s0 is not None and isinstance(s0["val"], DiagMat) and s0["r0"] == sym.ZERO and s0["c0"] == sym.ZERO \
+                        and sym.equal(s0["r1"], b.shape[0]) and sym.equal(s0["c1"], b.shape[1]) and s0["val"].off == b.base:
+                    # the walk covers the whole main diagonal of a square array that held one value everywhere: that is a
+                    # diagonal matrix (np.full + fill_diagonal written with index arrays)
+                    env[name] = s0["val"]
+                    return
                 self.blocks[b.uid] = b
                 if name:
                     env[name] = b
@@ -1617,6 +1688,11 @@ class Interp:
                 out.append(("ellipsis",))
                 continue
             v = self.eval(x, env)
+            if isinstance(v, Seq) and v.kind == "tuple" and len(elts) == 1 and len(v.items) >= 2 \
+                    and all(isinstance(y, Arr) and not _is_bool(y.elem) for y in v.items):
+                # A[idx] with idx a tuple of index arrays (np.diag_indices, np.nonzero, ...): the same as A[idx[0], idx[1]]
+                out.extend(("fancy", y) for y in v.items)
+                continue
             if isinstance(v, NoneV):
                 out.append(("new",))
             elif isinstance(v, StrV):
@@ -1737,7 +1813,7 @@ class Interp:
         if isinstance(n, ast.Subscript):
             base = self.eval(n.value, env)
             idx = self.index_items(n.slice, env)
-            return self.subscript(base, idx, n)
+            return _unbox_str(self.subscript(base, idx, n))
         if isinstance(n, ast.Call):
             return self.call(n, env)
         if isinstance(n, ast.BinOp):
@@ -1893,17 +1969,30 @@ class Interp:
         sub = dict(env)
         if sp is None:
             items = []
+            pending = []
             for item in elem:
                 self.assign(g.target, item, sub, n)
                 keep = True
+                open_ = []
                 for c in g.ifs:
-                    d = self.decide(self.truth(self.eval(c, sub)))
+                    tv_ = self.eval(c, sub)
+                    self.note_truth(tv_, c)
+                    tc = self.truth(tv_)
+                    d = self.decide(tc)
                     if d is False:
                         keep = False
                     elif d is None:
-                        return self.unknown("filtered-comprehension", n)
+                        open_.append(tc)
                 if keep:
+                    k0 = len(self.path)
+                    self.path.extend(open_)
                     items.append(self.eval(n.elt, sub))
+                    del self.path[k0:]
+                    pending.append(sym.And(*open_) if open_ else sym.TRUE)
+            if any(c != sym.TRUE for c in pending):
+                if isinstance(n, ast.ListComp):
+                    return CondSeq(items, pending)
+                return self.unknown("filtered-comprehension", n)
             if isinstance(n, ast.SetComp):
                 return Bag(sym.Choice([generic_elem(x) for x in items]) if items else sym.Opq("empty", ()), None, False, None)
             return Seq(items, "list")
@@ -1923,6 +2012,14 @@ class Interp:
             pred = sym.And(sym.Cmp(">=", e_, sym.ZERO), sym.Cmp("<", e_, it.attrs["hi"].e),
                            *[sym.subst_ivar(c, iv, (PSet.VAR, 0)) for c in conds])
             return PSet(pred)
+        if isinstance(n, ast.SetComp) and isinstance(n.elt, ast.Name) and isinstance(g.target, ast.Name) \
+                and n.elt.id == g.target.id and iv is not None:
+            # {j for j in positions if c(j)}: membership predicate of the iterable, narrowed by the filters
+            from .prims import _pset_of
+            p0 = _pset_of(self, it)
+            ev_ = elem()
+            if p0 is not None and isinstance(ev_, Sc) and ev_.e == sym.IV(iv):
+                return PSet(sym.And(p0, *[sym.subst_ivar(c, iv, (PSet.VAR, 0)) for c in conds]))
         conds = [c for c in conds if self.decide(c) is not True]
         if conds or isinstance(n, ast.SetComp):
             cond = sym.And(*conds) if conds else sym.TRUE
@@ -2126,7 +2223,8 @@ class Interp:
             key = k[2] if (k[0] == "str" and len(k) > 2 and k[2] is not None) else (k[1] if k[0] == "expr" else None)
             if key is None:
                 key = sym.Opq("unknown-key", (), fresh("k"))
-            return Sc(sym.Opq("hk_partner", tuple(base.attrs.get("deps", ())) + (key,), None))
+            # the library's matching maps both ways: str(row) -> column and column (an int) -> str(row)
+            return Sc(sym.Opq("hk_partner" if k[0] == "str" else "hk_owner", tuple(base.attrs.get("deps", ())) + (key,), None))
         if any(it[0] == "str" for it in idx):
             return self.unknown("string-index", node)
         r = arrays.index(base, idx, self)
@@ -2523,4 +2621,6 @@ def _rename_val(v: Val, old: Optional[str], new: str) -> Val:
         return Arr(v.axes, sym.subst_ivar(v.elem, old, (new, 0)), v.kind, v.uid)
     if isinstance(v, Seq):
         return Seq([_rename_val(x, old, new) for x in v.items], v.kind)
+    if isinstance(v, StrV) and getattr(v, "arg", None) is not None:
+        return StrV(v.s, arg=sym.subst_ivar(v.arg, old, (new, 0)))
     return v
